@@ -26,6 +26,10 @@ from amaranth.lib.memory import Memory
 FILES = ["amaranth/hdl/_cd.py", "amaranth/hdl/_xfrm.py", "amaranth/hdl/_ir.py", "amaranth/sim/_pyrtl.py", "amaranth/sim/pysim.py"]
 
 
+def to_u(v, w):
+    return v & ((1 << w) - 1)
+
+
 def neq_term(a, b):
     if is_sym(a):
         return sym_not(a == b)
@@ -182,10 +186,13 @@ def law_obligation(job):
     text = f"{'('.join(spec[::-1])}(D{')' * len(spec)} vs {'('.join(inner[::-1]) + '(' if inner else ''}D{')' * len(inner)}; D =\n{core.text}"
     base = {"id": job["id"], "program": text, "nontrivial": True,
             "symbolic": "all registers, memory rows, read-port register, inputs, control signals, domain reset"}
-    kind = {"E": "EnableInserter law", "R": "ResetInserter law", "N": "DomainRenamer law"}[outer]
+    kind = {"E": "EnableInserter law", "R": "ResetInserter law", "N": "DomainRenamer law", "Z": "domain reset law"}[outer]
     res = dict(base, kind=kind)
     try:
-        if outer == "N":
+        if outer == "Z":
+            # the design against itself: reset asserted versus de-asserted at the same edge from the same state
+            ra = rb = Run(core, wrapper_stack(inner, ctrl))
+        elif outer == "N":
             ra = Run(core, wrapper_stack(inner, ctrl))
             rb = Run(core, lambda e: DomainRenamer({"sync": "other"})(wrapper_stack(inner, ctrl)(e)), domain="other")
         else:
@@ -196,6 +203,10 @@ def law_obligation(job):
     c = ctrl[-1]
 
     def scen():
+        if outer == "Z":
+            oa, na, _ = ra.step(rst_value=0)
+            ob, nb, _ = ra.step(rst_value=1)
+            return oa, na, 0, ob, nb, 1, None, None
         oa, na, rst = ra.step()
         ob, nb, rstb = rb.step()
         extra = None
@@ -215,7 +226,21 @@ def law_obligation(job):
     names = []
     for key, k in core.state_elements():
         resettable = k in ("reg", "rdata")
-        if outer == "N":
+        if outer == "Z":
+            # a reset-less register and a memory row ignore the reset; a resettable register takes its initial value on
+            # the bits the domain drives and keeps the others
+            if k == "rdata":
+                continue
+            if k == "reg":
+                sg = core.signal(key[1])
+                w = len(sg)
+                msk = ra.sim.sync_mask.get(ra.sim.slot(sg), 0) & ((1 << w) - 1)
+                u = (to_u(oa[key], w) & ~msk) | (sg.init & msk)
+                want = sym_ite((u >> (w - 1)) & 1 != 0, u - (1 << w), u) if sg.shape().signed and w else u
+            else:
+                want = na[key]
+            cond = True
+        elif outer == "N":
             want = na[key]                      # same function of (state, inputs, reset): variables are shared by name
             cond = True
         elif outer == "E":
@@ -310,6 +335,25 @@ def concrete_law(job, vals):
             sim.add_testbench(tb)
             sim.run()
         return out
+    if outer == "Z":
+        a = one(wrapper_stack(inner, ctrl), "sync", force_rst=0)
+        b = one(wrapper_stack(inner, ctrl), "sync", force_rst=1)
+        probe = Run(core, wrapper_stack(inner, ctrl))
+        differs = []
+        for key, k in core.state_elements():
+            if k == "rdata":
+                continue
+            if k == "reg":
+                sg = core.signal(key[1])
+                w = len(sg)
+                msk = probe.sim.sync_mask.get(probe.sim.slot(sg), 0) & ((1 << w) - 1)
+                u = ((a["old"][key] & ((1 << w) - 1)) & ~msk) | (sg.init & msk)
+                want = u - (1 << w) if (sg.shape().signed and w and (u >> (w - 1)) & 1) else u
+            else:
+                want = a["new"][key]
+            if b["new"][key] != want:
+                differs.append((key, b["new"][key], want))
+        return {"differs": bool(differs), "detail": f"old={a['old']} step with rst=0 {a['new']} step with rst=1 {b['new']} mismatches={differs}"}
     a = one(wrapper_stack(inner, ctrl), "sync")
     if outer == "N":
         b = one(lambda e: DomainRenamer({"sync": "other"})(wrapper_stack(inner, ctrl)(e)), "other")
@@ -660,6 +704,7 @@ def special_obligation(job, concrete=None):
         doms = {n: ClockDomain(n) for n in ("sync", "b", "c")}
         top.domains += list(doms.values())
         a, bq, din = Signal(3, name="a", init=1), Signal(3, name="bq", init=6), Signal(3, name="din")
+        cq = Signal(3, name="cq", init=4)          # a second domain inside the same module: many-to-one maps merge statement lists
         md = MemoryData(shape=3, depth=2, init=[3, 4])
         waddr, wen, raddr, rdata = Signal(1, name="waddr"), Signal(1, name="wen"), Signal(1, name="raddr"), Signal(3, name="rdata")
 
@@ -667,6 +712,7 @@ def special_obligation(job, concrete=None):
             def elaborate(self, platform):
                 m = Module()
                 m.d.sync += a.eq(a + din)
+                m.d.b += cq.eq(cq ^ din)
                 sub = Module()
                 sub.d.b += bq.eq(bq - din)
                 m.submodules.sub = sub
@@ -678,10 +724,11 @@ def special_obligation(job, concrete=None):
                 return m
         top.submodules.inner = DomainRenamer(dict(mapping))(Inner())
         fa, fb = mapping.get("sync", "sync"), mapping.get("b", "b")
-        text = f"DomainRenamer({mapping}) around: a += din in 'sync', bq -= din in 'b' (child), Memory write port in 'sync', read port in 'b'"
+        text = f"DomainRenamer({mapping}) around: a += din in 'sync' and cq ^= din in 'b' (same module), bq -= din in 'b' (child), Memory write port in 'sync', read port in 'b'"
         toggles = [doms["sync"].clk, doms["b"].clk, doms["c"].clk]
         aliases = []
-        regs = [(a, doms[fa], lambda v, e: (v + e["din"]) & 7, 7), (bq, doms[fb], lambda v, e: (v - e["din"]) & 7, 7)]
+        regs = [(a, doms[fa], lambda v, e: (v + e["din"]) & 7, 7), (bq, doms[fb], lambda v, e: (v - e["din"]) & 7, 7),
+                (cq, doms[fb], lambda v, e: (v ^ e["din"]) & 7, 7)]
         ins = {"din": din, "waddr": waddr, "wen": wen, "raddr": raddr}
         memspec = (md, doms[fa], doms[fb], rdata)
     base["program"] = text
@@ -851,7 +898,7 @@ def main(tier, seed):
     rep.extra["pysym_selfcheck_comparisons"] = selfcheck(seed)
     jobs = []
     ncores = 8 if tier == "quick" else 120
-    stacks = [["E"], ["R"], ["N"], ["E", "E"], ["R", "R"], ["R", "E"], ["E", "R"], ["E", "N"], ["R", "N"]]
+    stacks = [["Z"], ["E"], ["R"], ["N"], ["E", "E"], ["R", "R"], ["R", "E"], ["E", "R"], ["E", "N"], ["R", "N"]]
     if tier != "quick":
         stacks += [list(p) for p in itertools.product("ER", repeat=3)] + [["E", "R", "N"], ["R", "E", "N"]]
     for k in range(ncores):
@@ -870,7 +917,7 @@ def main(tier, seed):
         jobs.append({"id": f"special-late-bound-{k}", "what": "special", "kind": "late-bound", "edge": edge, "async": asy, "child_uses_cs": cs})
     for k, (sg, init, basy, edge) in enumerate([(False, 0x5A, False, "pos"), (True, 0xC3, False, "neg"), (False, 0xFF, True, "pos"), (True, 0x81, True, "pos")]):
         jobs.append({"id": f"special-split-{k}", "what": "special", "kind": "split", "signed": sg, "init": init, "b_async": basy, "edge": edge})
-    for k, mp in enumerate([{"sync": "b", "b": "sync"}, {"sync": "b", "b": "c"}, {"sync": "c"}, {"b": "c", "sync": "b"}]):
+    for k, mp in enumerate([{"sync": "b", "b": "sync"}, {"sync": "b", "b": "c"}, {"sync": "c"}, {"b": "c", "sync": "b"}, {"b": "sync"}, {"sync": "c", "b": "c"}, {"sync": "b"}]):
         jobs.append({"id": f"special-rename-multi-{k}", "what": "special", "kind": "rename-multi", "map": mp})
     results, stats = run.run_jobs(job_fn, jobs)
     skipped = [x for x in results if x.get("status") == "skipped"]
